@@ -31,6 +31,9 @@ func FuzzErrors(f *testing.F) {
 		if len(data) > 1<<12 {
 			return
 		}
+		// the fuzzing engine re-uses one buffer for every input; the harness identifies a buffer (and its
+		// pristine copy) by address and length, so each iteration works on a copy of its own
+		data = append([]byte{}, data...)
 		v := px.AllVersions[int(ver)%len(px.AllVersions)]
 		harness.SetProperty("C06")
 		if c, m := checkAll(data, v); c != "" {
